@@ -72,6 +72,8 @@ theorem step_inv_waitFin (s s' : St) (a : Nat) (hi : Inv s) (h : step s (.waitFi
 theorem step_inv_waited (s s' : St) (a r : Nat) (hi : Inv s) (h : step s (.waited a r) = some s') : Inv s' := by life_step
 theorem step_inv_suspendEnter (s s' : St) (a : Nat) (hi : Inv s) (h : step s (.suspendEnter a) = some s') : Inv s' := by life_step
 theorem step_inv_resumeEnter (s s' : St) (a : Nat) (hi : Inv s) (h : step s (.resumeEnter a) = some s') : Inv s' := by life_step
+theorem step_inv_waitEnter (s s' : St) (a : Nat) (hi : Inv s) (h : step s (.waitEnter a) = some s') : Inv s' := by life_step
+theorem step_inv_waitExit (s s' : St) (a : Nat) (hi : Inv s) (h : step s (.waitExit a) = some s') : Inv s' := by life_step
 theorem step_inv_reqCfg (s s' : St) (a t p : Nat) (hi : Inv s) (h : step s (.reqCfg a t p) = some s') : Inv s' := by life_step
 theorem step_inv_seenCfg (s s' : St) (a t p : Nat) (hi : Inv s) (h : step s (.seenCfg a t p) = some s') : Inv s' := by life_step
 
@@ -166,6 +168,8 @@ theorem step_inv (s s' : St) (e : Ev) (hi : Inv s) (h : step s e = some s') : In
   | worker a => exact step_inv_worker s s' a hi h
   | sleep a => exact step_inv_sleep s s' a hi h
   | wake a => exact step_inv_wake s s' a hi h
+  | waitEnter a => exact step_inv_waitEnter s s' a hi h
+  | waitExit a => exact step_inv_waitExit s s' a hi h
   | reqCfg a t p => exact step_inv_reqCfg s s' a t p hi h
   | seenCfg a t p => exact step_inv_seenCfg s s' a t p hi h
 
